@@ -59,7 +59,9 @@ class SourceFile(object):
 
     @staticmethod
     def write_binary_contents(filename, buffer):
+        # build the bytes first: a buffer that cannot be written must not truncate an existing file
+        contents = bytearray(buffer)
         with open(filename, "wb") as outfile:
-            outfile.write(bytearray(buffer))
+            outfile.write(contents)
 
 # E N D   O F   F I L E #######################################################
